@@ -375,3 +375,36 @@ Theorem windowless_two_step_runs_are_sound : forall cfg n tr l x es,
   run_mon (smon_step MTable) (smon_init (length cfg)) es <> None.
 Proof. exact IngestSwap2Proofs.windowless_two_step_runs_are_sound. Qed.
 Print Assumptions windowless_two_step_runs_are_sound.
+
+(* Round 8 (seeded C02-h).  Request appends the rows (processRequest) before it looks at any threshold; the variant of the model with an
+   overload guard BEHIND the appends -- more than BANDWITH_LIMIT = 50 MiB accounted: answer at once with an error, do not register the
+   promise (model/IngestGuard.v guard_step; every other step unchanged) -- violates the property: ClickHouse stalls on the block of
+   request 1 while three well-formed one-row requests accounted with 20 MiB each arrive; the third is refused, its row is sent with the
+   block of the other two (MTable, MClean reject), while the same actions on the unchanged model are accepted. *)
+From Qryn Require model.IngestGuard proofs.IngestGuardProofs.
+Theorem overload_guard_refuted :
+  exists tr x es,
+    IngestGuard.run_with (IngestGuard.guard_step IngestGuard.bandwidth_limit) (svc_init KSamples 0 0) [] tr = Some (x, es) /\
+    forallb (IngestGuard.sact_wf KSamples) tr = true /\
+    run_mon (smon_step MTable) (smon_init 1) es = None /\
+    run_mon (smon_step MClean) (smon_init 1) es = None /\
+    (exists y es', IngestGuard.run_with sstep (svc_init KSamples 0 0) [] tr = Some (y, es') /\
+                   (exists m, run_mon (smon_step MTable) (smon_init 1) es' = Some m)).
+Proof. exact IngestGuardProofs.overload_guard_refuted. Qed.
+Print Assumptions overload_guard_refuted.
+
+(* The accounted size is the ONLY thing that tells the variant from the model: a run in which it never exceeds the limit is the same run,
+   event for event -- so only inputs that pile up more than 50 MiB between two flushes can expose such a guard (the harness scenario
+   `overload` builds them: 4..7 requests accounted with 13..30 MiB each while the previous Do is blocked or no flush comes). *)
+Theorem guard_runs_below_the_limit_are_model_runs : forall lim tr s st,
+  IngestGuardProofs.sizes_below lim s tr ->
+  IngestGuard.run_with (IngestGuard.guard_step lim) s st tr = IngestGuard.run_with sstep s st tr.
+Proof. exact IngestGuardProofs.guard_runs_below_the_limit_are_model_runs. Qed.
+Print Assumptions guard_runs_below_the_limit_are_model_runs.
+
+(* The same guard in FRONT of processRequest refuses without touching the batch, in every state and for every request. *)
+Theorem early_guard_refusal_leaves_no_cell : forall lim s p r sz s' vs,
+  IngestGuard.early_guard_step lim s (SRequest p r sz) = Some (s', vs) -> imm_of vs = Some false -> running s = true ->
+  cols s' = cols s /\ results s' = results s /\ size s' = size s.
+Proof. exact IngestGuardProofs.early_guard_refusal_leaves_no_cell. Qed.
+Print Assumptions early_guard_refusal_leaves_no_cell.
